@@ -62,16 +62,19 @@ def completeDefinition (g : Atom) (bodies : List Formula) : Formula :=
   let rhs := disjoin (bodies.map fun f => f.quantify .ex (f.fv.filter (· ∉ v)))
   (Formula.bin .iff (.atomic (.atom g)) rhs).quantify .all v
 
+/-- an empty definition for a predicate without rules (`entry(a).or_default()`; an existing entry for
+    the same atom is left with what it has in the Rust code - the model resets it, which is the same
+    because only empty entries can have that atom) -/
+def Definitions.addEmpty (d : Definitions) (p : Pred) : Definitions :=
+  let a := atomFromPred p
+  if d.any (·.1 = a) then d.map fun e => if e.1 = a then (a, []) else e else d ++ [(a, [])]
+
 def completion (t : Theory) (inputs : List Pred) : Option Theory :=
   match components t with
   | none => none
   | some (explicit, constraints) =>
     let explicitPreds := explicit.foldl (fun acc e => ins acc e.1.predicate) []
-    let defs := (t.preds.filter (· ∉ explicitPreds)).foldl
-      (fun (d : Definitions) p =>
-        let a := atomFromPred p
-        if d.any (·.1 = a) then d.map fun e => if e.1 = a then (a, []) else e else d ++ [(a, [])])
-      explicit
+    let defs := (t.preds.filter (· ∉ explicitPreds)).foldl Definitions.addEmpty explicit
     if hasHeadMismatches defs then none
     else
       let final := defs.filter fun e => e.1.predicate ∉ inputs
